@@ -60,9 +60,26 @@ type faultDB struct {
 	walletdb.DB
 	decide func() int
 	fired  int
+	// after, if set, runs once when the next transaction (read-only or
+	// read-write) has ended: the point at which another caller's operation
+	// can slip in between two transactions of one call.
+	after func()
+}
+
+func (w *faultDB) ended() {
+	if f := w.after; f != nil {
+		w.after = nil
+		f()
+	}
+}
+
+func (w *faultDB) View(f func(tx walletdb.ReadTx) error, reset func()) error {
+	defer w.ended()
+	return w.DB.View(f, reset)
 }
 
 func (w *faultDB) Update(f func(tx walletdb.ReadWriteTx) error, reset func()) error {
+	defer w.ended()
 	switch w.decide() {
 	case 1:
 		w.fired++
@@ -418,6 +435,35 @@ func (s *sim) status(pi int, m maskSel, why string) string {
 	now := time.Now()
 	var st banman.Status
 	var err error
+	// Another caller's ban of the same network may slip in right after the
+	// query's first database transaction (mostly tried when a lapsed record
+	// is still waiting to be cleaned up by this very query). The query is
+	// judged against the bans before it; the new ban holds afterwards.
+	var slipped *rec
+	if old := s.model[key]; (old != nil && !now.Before(old.lapse) && s.tp.Chance(1, 2)) || s.tp.Chance(1, 10) {
+		reason := reasons[s.tp.Intn(5)]
+		d := time.Duration(1+s.tp.Intn(3600)) * time.Second
+		s.fdb.after = func() {
+			arm := s.faultArm
+			s.faultArm = false
+			berr := s.store.BanIPNet(ipNet, reason, d)
+			s.faultArm = arm
+			if berr != nil {
+				s.rc.Failf("ban-failed", s.facts("form", sp.form, "mask", maskClass(a, m)),
+					"BanIPNet(%q /%d, %v) between the transactions of a Status query failed without any injected fault: %v", sp.text, m.bits, d, berr)
+			}
+			slipped = &rec{reason: reason, lapse: now.Add(d), bannedAs: sp.text, bannedAddr: a, epoch: s.epoch}
+			s.rc.Probe("ban_slipped_into_status_query")
+			s.rc.Logf("  (ban of the same network, reason=%d for %v, right after the query's first transaction)", reason, d)
+		}
+		defer func() {
+			s.fdb.after = nil
+			if slipped != nil {
+				s.model[key] = slipped
+				s.nBan++
+			}
+		}()
+	}
 	faulted := s.guarded("Status", sp, func() { st, err = s.store.Status(ipNet) })
 	s.rc.Logf("status[%s] %s (%v/%d) at %s -> banned=%v reason=%d exp=%s err=%v", why, sp.text, a, m.bits,
 		stamp(now), st.Banned, st.Reason, stamp(st.Expiration), err)
